@@ -94,6 +94,26 @@ def build(tier: str) -> List[Cond]:
                 conds.append(Cond(oid=f"split-join/{seq}/mods={npos}/term={int(term)}", clause="split into residues then concatenate reproduces the peptide",
                                   module="vf.h.c11", func="o_split_join", shape=dict(seq=seq, npos=npos, term=term), sym=_pos_sym(npos) or [("p0", "int")],
                                   pre=_pos_pre(L, max(npos, 1)), timeout=t, functions=FUNCS[5:7], bounds=f"len {L}; residue, terminal and labile modifications"))
+    # the module-level wrappers (annotation object or ProForma string in, string out) against the annotation methods
+    for seq in seqs[1:3]:
+        L = len(seq)
+        for glob in (False, True):
+            for npos in ((1,) if tier == "quick" else (0, 1, 2)):
+                if npos > L:
+                    continue
+                for op in ("reverse", "shift", "shuffle", "sort", "span", "split"):     # count_residues: the statement does not say what it counts
+                    sym = [("as_str", "bool")] + _pos_sym(npos)
+                    pre = _pos_pre(L, npos)
+                    if op == "shift":
+                        sym.append(("n", "int")); pre.append(f"{-2 * L} <= n <= {2 * L}")
+                    if op == "reverse":
+                        sym.append(("swap", "bool"))
+                    if op == "span":
+                        sym += [("i", "int"), ("j", "int")]; pre.append(f"0 <= i <= j <= {L}")
+                    conds.append(Cond(oid=f"wrappers/{op}/{seq}/mods={npos}/glob={int(glob)}", clause="module-level reverse/shift/shuffle/sort/span_to_sequence/split = the annotation method, for object and string input; input unchanged",
+                                      module="vf.h.c11", func="o_wrappers", shape=dict(seq=seq, npos=npos, glob=glob, op=op), sym=sym, pre=pre, timeout=t,
+                                      functions=["sequence_funcs." + {"span": "span_to_sequence", "count": "count_residues"}.get(op, op)],
+                                      bounds=f"len {L}; input form, positions and the operation's parameter symbolic"))
     return conds
 
 
